@@ -273,6 +273,33 @@ def nul_cut(prog: Program):
         decs = [c for c in calls if isinstance(c.func, ast.Attribute) and c.func.attr == "decode"]
         return has_index or bool(decs)
 
+    def try_body_find_raises_when_absent(tr):
+        """try body: pos = <field>.find(NUL); if pos < 0 (== -1): raise ValueError(..); decode of the cut - the explicit raise plays
+        the part of .index()'s ValueError"""
+        finds = [c for b in tr.body for c in ast.walk(b) if isinstance(c, ast.Call) and isinstance(c.func, ast.Attribute) and c.func.attr == "find" and c.args
+                 and isinstance(c.args[0], ast.Constant) and c.args[0].value in NULS]
+        if not finds:
+            return False
+        raises_ = [r for b in tr.body for r in ast.walk(b) if isinstance(r, ast.Raise)]
+        if not raises_:
+            return False
+        from .mutrules import enclosing_tests
+        for r in raises_:
+            exc = r.exc.func if isinstance(r.exc, ast.Call) else r.exc
+            if exc is None or norm(exc) != "ValueError":
+                return False
+            tests = enclosing_tests(fn, r)
+            okk = False
+            for t, br in tests:
+                s_ = norm(t).replace(" ", "")
+                if br and (s_.endswith("<0") or s_.endswith("==-1") or s_.endswith("<=-1")):
+                    okk = True
+            if not okk:
+                return False
+        others = [c for b in tr.body for c in ast.walk(b) if isinstance(c, ast.Call) and c not in finds
+                  and not (isinstance(c.func, ast.Attribute) and c.func.attr == "decode") and norm(c.func) not in ("ValueError", "struct.unpack", "len")]
+        return not others
+
     out = []
     n_ret = 0
     for pe in path_returns(fn):
@@ -301,7 +328,8 @@ def nul_cut(prog: Program):
                 if isinstance(t, ast.Call) and isinstance(t.func, ast.Name) and t.func.id == "__except__":
                     tr = getattr(t, "_try", None)
                     exc = norm(t.args[0]) if t.args else ""
-                    if exc in ("ValueError", "UnicodeDecodeError", "UnicodeError") and tr is not None and try_body_only_raises_for_no_nul_or_bad_prefix(tr):
+                    if exc in ("ValueError", "UnicodeDecodeError", "UnicodeError") and tr is not None and (try_body_only_raises_for_no_nul_or_bad_prefix(tr)
+                                                                                                              or try_body_find_raises_when_absent(tr)):
                         no_nul = True
                     continue
                 tt, pp = t, pol
